@@ -339,7 +339,8 @@ def run(ctx: Ctx):
             meta.append({"cls": cls.__name__, "pre": pre, "o": o})
             ctx.case((cls.__name__, "rnd", i, j), True)
     ctx.sample({"trace_event": ev[-1]})
-    for idx, clause, known in ctx.validate_trace("Trace_StartEnd", ev, cfg_text(spec="Spec"), chunk=10000, timeout=3000):
+    for idx, clause, known in ctx.validate_trace("Trace_StartEnd", ev, cfg_text(spec="Spec"), chunk=10000, timeout=3000,
+                                                 boundary=lambda e: e["o"]["op"] == "reset"):
         ctx.fail(clause, meta[idx], [ev[idx]["post"], ev[idx]["obs"]], None)
     ctx.assumptions += [
         "times are whole hours from 2024-01-15; the zoned kind is Europe/Berlin in January (fixed +1h)",
